@@ -28,7 +28,7 @@ var canonical = map[string][]string{
 	"haskell/cabal":                      {"cabal.project.freeze"},
 	"haskell/stacklock":                  {"stack.yaml.lock"},
 	// the file name is an input of java/archive (ParseFilename: name-version, name_version, name.version, build-and-digit versions, nothing before the dash)
-	"java/archive": {"app/lib.jar", "app/app.war", "app/foo_1.2.jar", "app/foo.bar.1.2.3.jar", "app/foo-1.0-b12.jar", "app/-1.0.jar", "app/guava-31.1-jre.jar", "app/noversion.ear"},
+	"java/archive": {"app/lib.jar", "app/app.war", "app/foo_1.2.jar", "app/foo.bar.1.2.3.jar", "app/foo-1.0-b12.jar", "app/-1.0.jar", "app/guava-31.1-jre.jar", "app/noversion.ear", "app/foo-build7.jar", "app/foo-rc1.jar"},
 	"java/gradlelockfile":                {"gradle.lockfile", "buildscript-gradle.lockfile"},
 	"java/gradleverificationmetadataxml": {"gradle/verification-metadata.xml"},
 	"java/pomxml":                        {"pom.xml"},
